@@ -195,12 +195,6 @@ func (g *G) extraTmpl(d int) *Node {
 			}
 			fallthrough
 		case 2:
-			if vs := g.Env.OfType(TArrI); len(vs) > 0 && !g.avoid("shared_container_text") && g.intn(3, "holeShared") == 0 {
-				// one array held twice by another: its text is the text of its elements
-				v := vs[g.intn(len(vs), "sharedArr")]
-				h.Kids = append(h.Kids, N("arr", Var(v.Name), Var(v.Name)))
-				break
-			}
 			h.Kids = append(h.Kids, g.Expr([]T{TInt, TStr, TArrI, TFlt}[g.intn(4, "holeT")], d))
 		case 3:
 			// an if statement alone yields '' inside a hole
